@@ -1021,6 +1021,8 @@ class PDFDocument:
         xrefs: List[PDFBaseXRef],
     ) -> None:
         """Reads XRefs from the given location."""
+        if start < 0:
+            raise PDFNoValidXRef("Invalid cross-reference offset: %r" % start)
         parser.seek(start)
         parser.reset()
         try:
